@@ -5,7 +5,7 @@
    correspondence compares every accepted pipeline's SQLite result with the reference. *)
 From Coq Require Import List String NArith ZArith Bool.
 From PDT Require Import Model.Dtype Model.Value Model.Ops Model.Expr Model.RefSem Model.Typing
-     Model.SqlCompile Model.Accept Model.Cache Proofs.SubqueryLemmas Proofs.AcceptLemmas.
+     Model.SqlCompile Model.Accept Model.Cache Proofs.SubqueryLemmas Proofs.SqlCompileLemmas Proofs.AcceptLemmas.
 From PDTGen Require Import Catalogue.
 Import ListNotations.
 Open Scope list_scope.
@@ -91,6 +91,33 @@ Proof.
   eexists. split; [reflexivity|]. split; [vm_compute; reflexivity|]. vm_compute. discriminate.
 Qed.
 Print Assumptions slice_head_zero_refuted.
+
+(* ... AND COMPILED CORRECTLY THROUGH A SUBQUERY.  When a verb needs a subquery and the user wrote alias(), the
+   front end inserts a subquery marker; compile_ast turns the query built so far into a subquery and starts
+   a fresh outer query over its columns.  The transcription (every column in scope is selected in the
+   subquery; the code selects the ones needed later - a subset with the same meaning) denotes the reference
+   table for all data, whatever the inner query is (summarized, ordered, limited, with window columns),
+   and any verb of the fragment may follow: a filter on a window column, a summarize of a summarize, a verb
+   after slice_head. *)
+Theorem subquery_is_compiled_correctly : forall d a c,
+  compile (SubqueryMarker a) = Some c -> flat_ok a = true ->
+  sem_query d c = export_ref (sem_ref d (SubqueryMarker a)).
+Proof. intros d a c C F. apply (sql_compile_correct_proof d (SubqueryMarker a) c C). exact F. Qed.
+Print Assumptions subquery_is_compiled_correctly.
+
+(* the textbook case: a filter on a window column is refused by the catalogue, but after alias() + marker it
+   is accepted and the statement returns the reference table *)
+Example filter_on_window_column_through_a_subquery :
+  let d := [("t"%string, [[VInt 1; VInt 4]; [VInt 1; VInt 2]; [VInt 2; VInt 5]; [VInt 2; VInt (-7)]])] in
+  let w := Mutate (Source "t" [("g"%string, 1%N); ("x"%string, 2%N)])
+                  [("s"%string, 3%N, EFn Op_sum [ECol 2%N] true [ECol 1%N] [])] in
+  let flt := fun c => Filter c [EFn Op_greater_than [ECol 3%N; ELit (VInt 0)] false [] []] in
+  flat_ok (flt w) = false
+  /\ flat_ok (flt (SubqueryMarker (Alias w None))) = true
+  /\ option_map (fun c => f_rows (sem_query d c)) (compile (flt (SubqueryMarker (Alias w None))))
+     = Some [[VInt 1; VInt 4; VInt 6]; [VInt 1; VInt 2; VInt 6]]
+  /\ f_rows (export_ref (sem_ref d (flt (SubqueryMarker (Alias w None))))) = [[VInt 1; VInt 4; VInt 6]; [VInt 1; VInt 2; VInt 6]].
+Proof. vm_compute. repeat split; reflexivity. Qed.
 
 (* non-vacuity: a grouped summarize pipeline with filters before and after, an arrange and a final slice is
    accepted and has the shape; the same pipeline with the slice moved before the filter is refused *)
